@@ -285,7 +285,11 @@ def run_case(ck, desc):
             yn = yn.copy()
             yn[first] = 0.0
             ck.count("fits_with_leading_zero_records")
-        fo = ForecasterOnePhase(f, Bounds(M=(lo, hi), tau=(1e-10, np.inf)))
+        # (the configured limits on tau say nothing about a tau the caller SUPPLIES: limits that do not
+        # contain it - below, above, half-infinite - leave it exactly as given)
+        tb_ = [(1e-10, np.inf), (2.0 * desc["tau_s"], 50.0 * desc["tau_s"]), (1e-3 * desc["tau_s"], 0.5 * desc["tau_s"]), (3.0 * desc["tau_s"], np.inf)][int(M * 1e5) % 4]
+        fo = ForecasterOnePhase(f, Bounds(M=(lo, hi), tau=tb_))
+        ck.count("supplied_tau_fits.tau_limits_" + ("contain_it" if tb_[0] <= desc["tau_s"] <= tb_[1] else "do_not_contain_it"))
         try:
             with warnings.catch_warnings():
                 warnings.simplefilter("ignore")
